@@ -122,9 +122,13 @@ impl VotingBuilder {
     pub fn get_plutus_witnesses(&self) -> PlutusWitnesses {
         let tag = RedeemerTag::new_vote();
         let mut scripts = PlutusWitnesses::new();
-        for (i, (_, voter_votes)) in self.votes.iter().enumerate() {
+        for (voter, voter_votes) in self.votes.iter() {
             if let Some(ScriptWitnessType::PlutusScriptWitness(s)) = &voter_votes.script_witness {
-                let index = BigNum::from(i);
+                // the redeemer index is the position of the voter in the ledger's order of voters
+                let key = Self::ledger_order_key(voter);
+                let index = BigNum::from(
+                    self.votes.keys().filter(|v| Self::ledger_order_key(v) < key).count(),
+                );
                 scripts.add(&s.clone_with_redeemer_index_and_tag(&index, &tag));
             }
         }
@@ -190,6 +194,18 @@ impl VotingBuilder {
             }
         }
         false
+    }
+
+    /// The ledger orders voters by kind (committee, DRep, stake pool), then script credentials
+    /// before key credentials, then by hash bytes.
+    fn ledger_order_key(voter: &Voter) -> (u8, bool, Vec<u8>) {
+        match &voter.0 {
+            VoterEnum::ConstitutionalCommitteeHotCred(cred) => {
+                (0, !cred.has_script_hash(), cred.to_raw_bytes())
+            }
+            VoterEnum::DRep(cred) => (1, !cred.has_script_hash(), cred.to_raw_bytes()),
+            VoterEnum::StakingPool(key_hash) => (2, true, key_hash.to_bytes()),
+        }
     }
 
     pub fn build(&self) -> VotingProcedures {
